@@ -855,12 +855,26 @@ func (db *DB) exec(sql string, tree *pg_query.ParseResult, params [][]byte, pfmt
 		}
 		rec.Cols = names
 		sel := ins.GetSelectStmt().GetSelectStmt()
-		if sel == nil || len(sel.GetValuesLists()) == 0 {
+		if sel == nil {
 			return bad(errf("0A000", "fakepg: INSERT without VALUES"))
 		}
-		var newRows [][]Val
+		var tuples [][]*pg_query.Node
 		for _, l := range sel.GetValuesLists() {
-			items := l.GetList().GetItems()
+			tuples = append(tuples, l.GetList().GetItems())
+		}
+		if len(tuples) == 0 {
+			// INSERT … SELECT <expressions>
+			if len(sel.GetTargetList()) == 0 || len(sel.GetFromClause()) != 0 {
+				return bad(errf("0A000", "fakepg: unsupported INSERT source"))
+			}
+			var items []*pg_query.Node
+			for _, it := range sel.GetTargetList() {
+				items = append(items, it.GetResTarget().GetVal())
+			}
+			tuples = append(tuples, items)
+		}
+		var newRows [][]Val
+		for _, items := range tuples {
 			if len(items) > len(names) {
 				return bad(errf("42601", "INSERT has more expressions than target columns"))
 			}
@@ -892,6 +906,52 @@ func (db *DB) exec(sql string, tree *pg_query.ParseResult, params [][]byte, pfmt
 			rec.Raw = append(rec.Raw, raws)
 			newRows = append(newRows, row)
 		}
+		if oc := ins.GetOnConflictClause(); oc != nil && len(oc.GetTargetList()) > 0 {
+			// ON CONFLICT (id) DO UPDATE SET …: rows whose id exists update the stored row instead
+			k := t.col("id")
+			var fresh [][]Val
+			for _, nr := range newRows {
+				hit := -1
+				for i, r := range db.rows[t.Name] {
+					if k >= 0 && nr[k] != nil && r[k] != nil && string(*r[k]) == string(*nr[k]) {
+						hit = i
+					}
+				}
+				if hit < 0 {
+					fresh = append(fresh, nr)
+					continue
+				}
+				upd := append([]Val{}, db.rows[t.Name][hit]...)
+				for _, tl := range oc.GetTargetList() {
+					rt := tl.GetResTarget()
+					ci := t.col(rt.GetName())
+					if ci < 0 {
+						return bad(errf("42703", "column %q does not exist", rt.GetName()))
+					}
+					if cr := rt.GetVal().GetColumnRef(); cr != nil && len(cr.GetFields()) == 2 && cr.GetFields()[0].GetString_().GetSval() == "excluded" {
+						if xi := t.col(cr.GetFields()[1].GetString_().GetSval()); xi >= 0 {
+							upd[ci] = nr[xi]
+							continue
+						}
+					}
+					data, bin, null, _, err := cell(rt.GetVal(), params, pfmt)
+					if err != nil {
+						return bad(err)
+					}
+					if null {
+						upd[ci] = nil
+						continue
+					}
+					v, err := input(t.Cols[ci].Type, data, bin)
+					if err != nil {
+						return bad(err)
+					}
+					upd[ci] = V(v)
+				}
+				db.rows[t.Name][hit] = upd
+			}
+			newRows = fresh
+		}
 		db.rows[t.Name] = append(db.rows[t.Name], newRows...)
 		rec.Changed = len(newRows)
 		for _, r := range newRows {
@@ -917,7 +977,15 @@ func (db *DB) exec(sql string, tree *pg_query.ParseResult, params [][]byte, pfmt
 				return bad(errf("42703", "column %q does not exist", rt.GetName()))
 			}
 			rec.Cols = append(rec.Cols, rt.GetName())
-			data, bin, null, raw, err := cell(rt.GetVal(), params, pfmt)
+			val := rt.GetVal()
+			if mr := val.GetMultiAssignRef(); mr != nil {
+				// SET (a, b) = (x, y)
+				args := mr.GetSource().GetRowExpr().GetArgs()
+				if k := int(mr.GetColno()) - 1; k >= 0 && k < len(args) {
+					val = args[k]
+				}
+			}
+			data, bin, null, raw, err := cell(val, params, pfmt)
 			if err != nil {
 				return bad(err)
 			}
